@@ -1,4 +1,84 @@
 import FqModel.Proto
-/-! driver for C16 (stub — replaced by the property's own driver) -/
-open FqModel.Proto
-def main : IO Unit := run (fun _ _ => "BADOP driver-stub")
+import FqModel.Bits
+import FqModel.Serial.Common
+import FqModel.Serial.Text
+import FqModel.Serial.Msgpack
+import FqModel.Serial.Cbor
+import FqModel.Serial.Bencode
+/-! driver for C16
+
+  `<format> <hex of the input> <kind> <source value>` TAB `<observation of fq -d <format> torepr>`
+     kind = full      the input is a complete encoding (any wire form) of the source value
+          | trunc     the input is a strict prefix of an encoding of the source value
+          | trail:<n> a complete encoding followed by <n> further bytes
+          | bad       the input is not an encoding of any value (the source value on the line is ignored)
+     observation = err                       root `._error` is set (decode error)
+                 | reprerr                   decode fine, `torepr` raised a jq error
+                 | ok <value> <gaps>         <gaps> = `-` or `g<start byte>:<hex>` joined by `+`
+     value syntax: FqModel/Serial/Text.lean.
+
+  verdict: the property predicate is evaluated on fq's observation against the SOURCE value carried on the
+  line (independent of the model):  full ⇒ `ok norm(source) -`, trunc / bad ⇒ `err`,
+  trail:n ⇒ `ok norm(source) g<len-n>:<the n bytes>`;  then the model's observation must equal fq's.
+-/
+open FqModel FqModel.Proto FqModel.Serial
+
+def showRes (total : Nat) (r : Res (V × Bytes)) : Option String :=
+  match r with
+  | .ok (v, rest) =>
+    let gap := if rest.isEmpty then "-" else s!"g{total - rest.length}:{hexOfBytes rest}"
+    some s!"ok {render v} {gap}"
+  | .err .eof => some "err"
+  | .err .fatal => some "err"
+  | .err .repr => some "reprerr"
+  | .err .fuel => none
+  | .err .unmodelled => none
+
+/-- (as-is model, repaired model if the format has a modelled known defect) -/
+def models (fmt : String) : Option ((Bytes → Res (V × Bytes)) × Option (Bytes → Res (V × Bytes)) × String) :=
+  match fmt with
+  | "msgpack" => some (Msgpack.decode, none, "")
+  | "cbor" => some (Cbor.decode, some Cbor.decodeFixed, "cbor-indef-string-break")
+  | "bencode" => some (Bencode.decode, none, "")
+  | _ => none
+
+def expected (kind : String) (src : V) (input : Bytes) : Option String :=
+  let v := render (norm src)
+  if kind == "full" then some s!"ok {v} -"
+  else if kind == "trunc" then some "err"
+  else if kind == "bad" then some "err"
+  else match kind.splitOn ":" with
+    | ["trail", ns] =>
+      match ns.toNat? with
+      | some n =>
+        if n == 0 || n > input.length then none
+        else some s!"ok {v} g{input.length - n}:{hexOfBytes (input.drop (input.length - n))}"
+      | none => none
+    | _ => none
+
+def stepC16 (op obs : String) : String :=
+  match words op with
+  | [fmt, hex, kind, srcs] =>
+    match models fmt, parseHexTok hex, parseValue srcs with
+    | some (asIs, fixed?, key), some input, some src =>
+      match expected kind src input with
+      | none => "BADOP kind"
+      | some exp =>
+        match showRes input.length (asIs input) with
+        | none => "BADOP model-fuel-or-unmodelled-branch"
+        | some m =>
+          let div := if m == obs then "" else s!" ;DIVERGE model={m}"
+          if obs == exp then (if div.isEmpty then "OK" else s!"DIVERGE model={m}")
+          else
+            -- the property statement is falsified by fq's observation; is it the modelled known defect?
+            let known := match fixed? with
+              | some fx => m == obs && showRes input.length (fx input) == some exp
+              | none => false
+            if known then s!"KNOWN {key} expected={exp}"
+            else s!"PROPFAIL expected={exp}{div}"
+    | none, _, _ => "BADOP format"
+    | _, none, _ => "BADOP hex"
+    | _, _, none => "BADOP source-value"
+  | _ => "BADOP op"
+
+def main : IO Unit := run stepC16
